@@ -173,6 +173,12 @@ theorem uri_args_kwargs_preserved_registered {V} (regCallee regCaller : Registry
     roundtrip regCallee regCaller ctor e tb = .user c (Spec.args e) (Spec.kwargs e tb) := by
   rw [roundtrip_eq, hc]; simp [hk]
 
+/-- non-vacuity: `define`d on both sides, constructor accepts -/
+example : roundtrip (V := Nat) { clsToPats := [("E", ["com.e"])], uriToCls := [("com.e", "E")] }
+    { clsToPats := [("E", ["com.e"])], uriToCls := [("com.e", "E")] } (fun _ _ _ => .ok)
+    { cls := "E", appError := none, args := some [1, 2], kwargs := some [("code", 3)] } (some 9)
+    = .user "E" [1, 2] [("traceback", 9), ("code", 3)] := by decide
+
 /-- for ALL inputs: URI and args arrive exactly, and so does every keyword argument except the five reserved names -/
 theorem uri_args_kwargs_preserved_modulo_reserved {V} (regCallee regCaller : Registry)
     (ctor : Cls → List V → Kwargs V → Ctor) (e : Exc V) (tb : Option V) :
